@@ -135,7 +135,7 @@ def run_scratch(W, cfg):
 
 
 def cfg_tilt(tier, seed):
-    out = [{'route': r} for r in ('none', 'wavefront-tilt', 'tilt-plane', 'fit-tilt', 'dispersive')]
+    out = [{'route': r} for r in ('none', 'wavefront-tilt', 'tilt-plane', 'fit-tilt', 'dispersive', 'segments-none', 'segments-first', 'segments-second', 'segments-both')]
     return out, len(out), True
 
 
@@ -155,6 +155,13 @@ def run_tilt(W, cfg):
         p2 = lt.Pupil(amplitude=numpy.ones((3, 3)), opd=numpy.arange(9.0).reshape(3, 3) * 1e-7, pixelscale=1.0, focal_length=10.0).fit_tilt()
         w = lt.Wavefront(lam) * p2
         du = (lam * 10.0 / 4, lam * 10.0 / 4)
+    elif route.startswith('segments-'):
+        # a two-segment wavefront (two disjoint fields) in which none / only the first / only the second / both segments carry a tilt
+        w = lt.Wavefront(lam) * lt.Pupil(amplitude=W.reals('s', (2, 2)), pixelscale=dx, focal_length=f, mask=rnp.array([[[1, 0], [1, 0]], [[0, 1], [0, 1]]]))
+        which = {'none': (), 'first': (0,), 'second': (1,), 'both': (0, 1)}[route[9:]]
+        for k in which:
+            w.data[k].tilt = [lt.Tilt(x=W.real(f'tx{k}'), y=W.real(f'ty{k}'))]
+        route = 'none' if not which else route
     else:
         w = lt.Wavefront(lam) * pupil
     try:
